@@ -1006,6 +1006,25 @@ func c01Pipeline(c *Ctx, r *Result) {
 							cand := fa.X
 							if src := elemOfSlice(cand); src != nil && rl.resolve(src) == ssa.Value(match) && scopeOK(in, unspill(cand)) {
 								good = true
+							} else if src != nil {
+								// the candidate is taken from the triggering list itself, which holds
+								// only scope-checked candidates (its appends were verified above)
+								sApps, sBases := sliceAppends(src)
+								inT := len(sApps) > 0 && len(sBases) == 0
+								for _, sa := range sApps {
+									found := false
+									for _, ta := range tApps {
+										if ta == sa {
+											found = true
+										}
+									}
+									if !found {
+										inT = false
+									}
+								}
+								if inT {
+									good = true
+								}
 							}
 						}
 					}
